@@ -12,8 +12,9 @@ import (
 // item level generation shared by C10 / C11
 // ---------------------------------------------------------------------------------------------
 
-// c10Values: non-empty, not '-' prefixed, not '=' prefixed (the precondition of C10).
-var c10Values = []string{"v", "w", "7", "x", "a", "b", "true", "v=w", "é", "o", "%d", "50%", "a b"}
+// c10Values: non-empty; a value starting with '-' is never spelled in the separate form, one starting with '=' never in
+// the attached form (the precondition of C10; Spell enforces it).
+var c10Values = []string{"v", "w", "7", "x", "a", "b", "true", "v=w", "é", "o", "%d", "50%", "a b", "-x", "-1", "--", "-", "=x", "=", "-a"}
 
 // MutateItems applies 0-2 item level mutations (drop, duplicate, insert, swap).
 func MutateItems(t *rapid.T, d *Decls, items []Item) []Item {
@@ -156,17 +157,32 @@ func modelAgrees(prop string, d *Decls, ast *Node, argv []string, out *Outcome, 
 var metaCfg = GenCfg{Depth: 3, Env: true, DD: false}
 
 // GenItemsCase draws a program without spec-level "--" and an item sequence (sentence, then item mutations).
-func GenItemsCase(t *rapid.T) (*MetaCase, []Item, []string) {
+func GenItemsCase(t *rapid.T) (*MetaCase, []Item, []string) { return GenItemsCaseWant(t, nil) }
+
+// GenItemsCaseWant: when want is given, up to eight sentences of the program are sampled until one satisfies it, and
+// that sentence is then left unmutated two times out of three (so that most cases are accepted command lines).
+func GenItemsCaseWant(t *rapid.T, want func(head []Item) bool) (*MetaCase, []Item, []string) {
 	p := GenProgram(t, metaCfg)
 	g := &argvGen{t: t, d: p.D, cfg: metaCfg}
 	var items []Item
-	g.sample(p.AST, &items)
+	found := false
+	for try := 0; try < 8 && !found; try++ {
+		items = nil
+		g.sample(p.AST, &items)
+		if want == nil {
+			break
+		}
+		h, _ := splitAtDD(items)
+		found = want(h)
+	}
 	for i := range items {
 		if items[i].Opt >= 0 && !p.D.Opts[items[i].Opt].Bool {
 			items[i].Val = rapid.SampledFrom(c10Values).Draw(t, "c10val")
 		}
 	}
-	items = MutateItems(t, p.D, items)
+	if !found || chance(t, 1, 3, "mutateitems") {
+		items = MutateItems(t, p.D, items)
+	}
 	head, tail := splitAtDD(items)
 	var tailToks []string
 	if len(tail) > 0 {
@@ -211,7 +227,8 @@ func CheckC10(c *MetaCase, st *Stats) *Violation {
 		return Violf("re-spelling changed the outcome: spec %q [%s]: %q -> %s ; %q -> %s", c.SpecStr, FmtDecls(c.D), c.A, describe(&ra), c.B, describe(&rb))
 	}
 	if v := modelAgrees("C10", c.D, c.AST, c.A, &ra, st); v != nil {
-		return v
+		// whether this command line is a sentence at all is C01's claim; C10 only relates the spellings to each other
+		st.Class("deferred-to-C01")
 	}
 	if ra.Accept {
 		st.Class("verdict:accept")
@@ -248,7 +265,7 @@ func CheckC11(c *MetaCase, st *Stats) *Violation {
 			c.SpecStr, FmtDecls(c.D), c.A, describe(&ra), c.B, describe(&rb))
 	}
 	if v := modelAgrees("C11", c.D, c.AST, c.B, &rb, st); v != nil {
-		return v
+		st.Class("deferred-to-C01")
 	}
 	if ra.Accept {
 		st.Class("verdict:accept")
@@ -292,13 +309,16 @@ func optionBinds(d *Decls, b map[string][]string) map[string][]string {
 
 // CheckC12 runs the argv with no env-backed option and with each listed subset env-backed.
 func CheckC12(c *MetaCase, st *Stats) *Violation {
-	if HasHelpToken(c.A) || HasFoldEq(c.D, c.A) || HasDashResidue(c.D, c.A) {
-		// token shapes outside every claim (DESIGN.md 3.4 a, b, e): "-ab=v" and "-f-..." stop an option scan until token
-		// surgery by another matcher turns them into something else, so even monotonicity is not promised for them
+	if HasHelpToken(c.A) {
+		// a help request short-circuits parsing altogether (C14)
 		st.Eval()
-		st.Class("unclaimed:token-shape")
+		st.Class("unclaimed:help-token")
 		return nil
 	}
+	// "-ab=v" and "-f-..." are token shapes whose reading the reference semantics does not fix (DESIGN.md 3.4 b, e): the
+	// model is not consulted for them, but C12 is a statement about ALL command lines and needs no model: the library is
+	// compared with itself across environment settings
+	shape := HasFoldEq(c.D, c.A) || HasDashResidue(c.D, c.A)
 	base := withEnv(c.D, nil)
 	Begin("C12", "envmono", c)
 	r0 := RunReal(base, c.SpecStr, c.A)
@@ -322,10 +342,19 @@ func CheckC12(c *MetaCase, st *Stats) *Violation {
 		}
 		if r0.Accept && r1.Accept && !hasDD {
 			if b0, b1 := optionBinds(c.D, r0.Bind), optionBinds(c.D, r1.Bind); !reflect.DeepEqual(b0, b1) {
+				if shape && KnownClass("C12", ClassF11) && foldEqValueReadingOnly(c.D, c.A, b0, b1) {
+					st.Class("known:" + ClassF11)
+					continue
+				}
 				return Violf("option values differ with options %v env-backed: %s vs %s; spec %q argv %q [%s]", set, fmtBind(b0), fmtBind(b1), c.SpecStr, c.A, FmtDecls(de))
 			}
 		}
-		if v := modelAgrees("C12", de, c.AST, c.A, &r1, st); v != nil {
+		if shape {
+			st.Class("token-shape:metamorphic-clauses-only")
+			if r0.Accept {
+				st.Class("token-shape:accepted-without-env")
+			}
+		} else if v := modelAgrees("C12", de, c.AST, c.A, &r1, st); v != nil {
 			return v
 		}
 		switch {
@@ -361,6 +390,59 @@ func CheckC12(c *MetaCase, st *Stats) *Violation {
 		}
 	}
 	return nil
+}
+
+// ClassF11 is the recorded finding: in a folded token "-<flags>o=v" the value of o is read as "=v" or as "v" depending
+// on whether o's matcher looks at the token before or after the flags in front of it were taken out.
+const ClassF11 = "F11-fold-eq-value-reading"
+
+// foldEqValueReadingOnly: the two bindings differ only in options that occur as the valued member of such a token, and
+// only by one leading "=" of their values.
+func foldEqValueReadingOnly(d *Decls, argv []string, b0, b1 map[string][]string) bool {
+	fe := map[string]bool{}
+	for _, a := range argv {
+		if a == "--" {
+			break
+		}
+		if len(a) < 4 || a[0] != '-' || a[1] == '-' || a[2] == '=' {
+			continue
+		}
+		for j := 1; j < len(a); j++ {
+			o := d.Lookup("-" + a[j:j+1])
+			if o < 0 {
+				break
+			}
+			if !d.Opts[o].Bool {
+				if j >= 2 && j+1 < len(a) && a[j+1] == '=' {
+					fe[d.OptKey(o)] = true
+				}
+				break
+			}
+		}
+	}
+	keys := map[string]bool{}
+	for k := range b0 {
+		keys[k] = true
+	}
+	for k := range b1 {
+		keys[k] = true
+	}
+	strip := func(s string) string { return strings.TrimPrefix(s, "=") }
+	for k := range keys {
+		v0, v1 := b0[k], b1[k]
+		if reflect.DeepEqual(v0, v1) {
+			continue
+		}
+		if !fe[k] || len(v0) != len(v1) {
+			return false
+		}
+		for i := range v0 {
+			if v0[i] != v1[i] && strip(v0[i]) != strip(v1[i]) {
+				return false
+			}
+		}
+	}
+	return true
 }
 
 // ---------------------------------------------------------------------------------------------
